@@ -166,6 +166,13 @@ class PoolSum(sp.Expr):
     def free_symbols(self) -> set[sp.Basic]:
         return super().free_symbols - {s for s, _ in self.indices}
 
+    def _eval_subs(self, old, new):
+        # Summation indices are bound variables (cf. sympy.concrete.expr_with_limits):
+        # the sum does not depend on them, so substituting one leaves the sum unchanged.
+        if old in {idx for idx, _ in self.indices}:
+            return self
+        return None  # free symbols: argument-wise substitution by Basic._subs
+
     @override
     def doit(self, deep: bool = True) -> sp.Expr:  # type: ignore[misc]
         expr = self.evaluate()
@@ -212,7 +219,7 @@ class PoolSum(sp.Expr):
                 substitutions[idx] = values[0]
             else:
                 new_indices.append((idx, values))
-        new_expression = self.expression.xreplace(substitutions)
+        new_expression = self.expression.subs(substitutions)
         if len(new_indices) == 0:
             return new_expression
         return PoolSum(new_expression, *new_indices)
